@@ -29,6 +29,9 @@ class Verifier:
         self.need = need
         self.jobs = jobs
         self.lib_used = set()
+        self.math_used = set()
+        self.assumed = set()
+        self.lemmas_used = set()
         self.calls = {}
         self.global_writes = []
         self.results = {}       # function display name -> dict
@@ -40,7 +43,7 @@ class Verifier:
                  (os.path.join(self.repo, "contracts_verif.go"), MAIN)]
         self.contracts_source = "repo"
         for path, pkg in pairs:
-            if not os.path.exists(path) and contracts_dir:
+            if contracts_dir and (not os.path.exists(path) or os.environ.get("GOVC_CONTRACTS") == "mirror"):
                 alt = os.path.join(contracts_dir, "field_contracts_verif.go" if pkg == FIELD else "contracts_verif.go")
                 if os.path.exists(alt):
                     path = alt
@@ -86,7 +89,7 @@ class Verifier:
             if gtype is None:
                 raise VerifError("unknown global %s" % full)
             g = {"type": gtype}
-        t = self.prog.elem(g["type"])
+        t = run.prog.elem(g["type"])
         short = full.split(".")[-1]
         o = run.new_obj(t, short, "global")
         run.global_objs[full] = o
@@ -95,7 +98,7 @@ class Verifier:
         return Ptr(o)
 
     def _init_global(self, run, st, o, t, name):
-        prog = self.prog
+        prog = run.prog
         for path, lt in prog.leaves(t):
             k = prog.kind(lt)
             if k == "ptr":
@@ -164,7 +167,7 @@ class Verifier:
                 rec["error"] = "no Go body and no assembly body in this build configuration"
                 return rec
             rec["body"] = "field/fe_amd64.s"
-        if c.mode not in ("lia", "bv"):
+        if c.mode not in ("lia", "bv", "ring"):
             rec["error"] = "mode %s not implemented" % c.mode
             return rec
         for part, pname in self.partitions(f, c):
@@ -181,6 +184,43 @@ class Verifier:
                 rec["error"] = "%s: %s: %s" % (pname, type(e).__name__, e)
                 rec["trace"] = traceback.format_exc()
                 rec["obligations"].extend(run.obligations)
+                break
+        return rec
+
+    def verify_lemma(self, name):
+        """a contract-level lemma is proved once for arbitrary values of its parameters"""
+        L = self.contracts.lemmas[name]
+        pkg = L["pkg"]
+        params = []
+        for pn, ty in L["params"]:
+            ptr = ty.startswith("*")
+            base = ty.lstrip("*")
+            cands = [t for t in self.prog.types if t == pkg + "." + base or t == FIELD + "." + base.replace("field.", "")]
+            if not cands:
+                raise VerifError("lemma %s: unknown type %s" % (name, ty))
+            t = cands[0]
+            pt = "*" + t
+            if pt not in self.prog.types:
+                self.prog.types[pt] = {"kind": "ptr", "elem": t}
+            params.append({"name": pn, "type": pt if ptr else t})
+        f = {"name": pkg + ".lemma$" + name, "short": "lemma$" + name, "pkg": pkg, "params": params, "results": [],
+             "blocks": [], "hasBody": False, "recv": False, "lemma": True, "pos": "contracts:%d" % L["line"], "freevars": [], "anon": []}
+        c = cparse.FuncContract("lemma$" + name, [p for p, _ in L["params"]], pkg, L["line"])
+        c.mode = "ring"
+        c.ensures = [("holds", L["ast"], L["text"])]
+        c.opts["noalias"] = "all"
+        dn = self.display_name(f)
+        rec = {"name": dn, "mode": "ring", "obligations": [], "partitions": [], "error": None, "trusted": False, "paths": 0, "pos": f["pos"]}
+        self.results[dn] = rec
+        for part, pname in self.partitions(f, c):
+            run = FuncRun(self, f, c, part, pname)
+            try:
+                rec["obligations"].extend(run.run())
+                rec["partitions"].append(pname)
+                rec["paths"] += run.paths
+            except (Unsupported, VerifError, KeyError, AttributeError, TypeError, IndexError, AssertionError) as e:
+                rec["error"] = "%s: %s: %s" % (pname, type(e).__name__, e)
+                rec["trace"] = traceback.format_exc()
                 break
         return rec
 
@@ -226,6 +266,8 @@ class Verifier:
                     ob.result = r2
                     ob.smt_size = len(text)
                     return ob
+                if ob.mode == "ring":
+                    return self.discharge_ring(ob, dom)
                 text = dom.emit(ob.decl, ob.bounds, list(ob.hyps), ob.goal)
                 ob.smt_size = len(text)
                 ob.smt_hash = hashlib.sha256(text.encode()).hexdigest()[:16]
@@ -247,6 +289,65 @@ class Verifier:
         return obligations
 
 
+def _discharge_ring(self, ob, dom):
+    """DPLL(T)-style loop: the SMT solver sees ring equalities as propositional atoms; every model is checked
+    against the theory of fields of characteristic p by certified ideal membership, which yields lemmas"""
+    from .ringlemmas import m1_lemmas, all_atoms, theory_check
+    import time as _t
+    t0 = _t.time()
+    lemmas, certs = m1_lemmas(all_atoms(ob))
+    rounds = 0
+    total = 0.0
+    while True:
+        rounds += 1
+        text = dom.emit(ob.decl, ob.bounds, list(ob.hyps), ob.goal, lemmas=lemmas)
+        ob.smt_size = len(text)
+        r = smt.run_portfolio(text, timeout=self.timeout, need=self.need if rounds > 1 else 1)
+        total += r.secs
+        if r.status != "sat" or rounds > 40 or _t.time() - t0 > 6 * self.timeout:
+            break
+        names = dom.last_names
+        polys = {}
+        for f in list(ob.hyps) + [ob.goal] + lemmas:
+            if isinstance(f, tuple):
+                from .ring import req_atoms
+                for a in req_atoms(f):
+                    polys[a[1].key()] = a[1]
+        T = [polys[k] for n, k in names.items() if r.model.get(n) is True and k in polys]
+        F = [polys[k] for n, k in names.items() if r.model.get(n) is False and k in polys]
+        tk = {p.key() for p in T}
+        for h in ob.hyps:
+            if isinstance(h, tuple) and h and h[0] == "req" and h[1].key() not in tk:
+                T.append(h[1])
+                tk.add(h[1].key())
+        F = [f for f in F if f.key() not in tk]
+        t1 = _t.time()
+        new, nc = theory_check(T, F)
+        if os.environ.get("GOVC_DEBUG_RING"):
+            print("ROUND", rounds, ob.name, "T=%d F=%d -> %d lemmas in %.1fs" % (len(T), len(F), len(new), _t.time() - t1))
+            for x in T:
+                print("   T", x.key()[:150])
+            for x in F:
+                print("   F", x.key()[:150])
+            for c_ in nc:
+                print("   =>", str(c_)[:300])
+        if not new:
+            break
+        lemmas.extend(new)
+        certs.extend(nc)
+    if r.status == "unsat" and self.need > 1 and rounds == 1:
+        pass
+    r.secs = total
+    ob.result = r
+    ob.lemmas = certs
+    ob.rounds = rounds
+    if r.status != "unsat":
+        ob.smt_text = text
+    return ob
+
+
+Verifier.discharge_ring = _discharge_ring
+
 _domcache = {}
 
 
@@ -256,4 +357,7 @@ def domain_for(mode):
         return LiaDomain()
     if mode == "bv":
         return BvDomain()
+    if mode == "ring":
+        from .ring import RingDomain
+        return RingDomain()
     raise Unsupported(mode)
